@@ -215,7 +215,7 @@ func genAlertPlan(r *rand.Rand, quick bool) *plan.Plan {
 		}
 		return raw
 	}
-	inc := plan.Incarnation{Boot: "full", SchedSeed: r.Uint64() | 1}
+	inc := plan.Incarnation{Boot: "full", SchedSeed: r.Uint64()>>11 | 1}
 	// an index must exist before the alert's first evaluation (at creation)
 	seq++
 	inc.Ops = append(inc.Ops, plan.Op{Kind: "ingest", Index: "al", Events: []json.RawMessage{json.RawMessage(fmt.Sprintf(`{"level":"info","host":"h1","latency":0,"timestamp":%d,"vid":"al-%d"}`, simEpochMs-86_400_000, seq))}}, plan.Op{Kind: "flush"})
@@ -247,7 +247,7 @@ func genAlertPlan(r *rand.Rand, quick bool) *plan.Plan {
 			stateOps()
 			inc.Ops = append(inc.Ops, plan.Op{Kind: "deliveries"})
 			p.Incs = append(p.Incs, inc)
-			inc = plan.Incarnation{Boot: "full", SchedSeed: r.Uint64() | 1}
+			inc = plan.Incarnation{Boot: "full", SchedSeed: r.Uint64()>>11 | 1}
 			continue
 		}
 		inc.Ops = append(inc.Ops, plan.Op{Kind: "advance", DurMs: 40_000})
